@@ -219,6 +219,7 @@ func run(seed int64, n int, dir string, _ []string) {
 
 	if bin != "" {
 		finalisationCorpus(o, bin, scratch)
+		headerlessCorpus(o, bin, scratch)
 	}
 	for h := 0; h < n; h++ {
 		oneHistory(g, o, scratch, bin, h)
@@ -241,7 +242,11 @@ func blockTemps(g *hc.Gen, o *hc.Out, rounds int) {
 			case 3:
 				ops = append(ops, "UPDATE bt SET v = v + 1;")
 			case 4:
-				ops = append(ops, fmt.Sprintf("DELETE FROM bt WHERE v = %d;", g.Intn(9)))
+				if g.Intn(2) == 0 {
+					ops = append(ops, fmt.Sprintf("REPLACE INTO bt (v) USING (v) VALUES (%d), (%d);", g.Intn(9), 10+g.Intn(5)))
+				} else {
+					ops = append(ops, fmt.Sprintf("DELETE FROM bt WHERE v = %d;", g.Intn(9)))
+				}
 			case 5:
 				ops = append(ops, fmt.Sprintf("ALTER TABLE bt RENAME h%d TO h%d;", hdr, 1-hdr)) // may fail after a ROLLBACK: identically in every placement
 				hdr = 1 - hdr
@@ -296,6 +301,11 @@ func finalisationCorpus(o *hc.Out, bin, scratch string) {
 		"UPDATE `f0.csv` SET v = v + 1; CREATE TABLE `n1.csv` (v); CREATE TABLE `n2.csv` (v); INSERT INTO `n2.csv` VALUES (1), (2); DELETE FROM `f1.csv` WHERE v = 1; ",
 		"INSERT INTO `f0.csv` VALUES (7); INSERT INTO `f1.csv` VALUES (8); INSERT INTO `f2.csv` VALUES (9); ",
 		"CREATE TABLE `n1.csv` (v); CREATE TABLE `n2.csv` (v); INSERT INTO `n1.csv` VALUES (3); ",
+		// every file format goes through its own encoder on its way to the disk
+		"UPDATE `f0.csv` SET v = v + 1; INSERT INTO `g1.jsonl` VALUES (7); UPDATE `g2.ltsv` SET v = v + 1; ",
+		"INSERT INTO `g1.jsonl` VALUES (7); UPDATE `g3.json` SET v = v + 1; INSERT INTO `g4.tsv` VALUES (5); ",
+		"UPDATE `g2.ltsv` SET v = 0; UPDATE `g1.jsonl` SET v = 0; CREATE TABLE `n1.jsonl` (v); INSERT INTO `n1.jsonl` VALUES (1); ",
+		"DELETE FROM `g3.json` WHERE v = 1; INSERT INTO `g4.tsv` VALUES (6); UPDATE `g1.jsonl` SET v = v * 2; UPDATE `f1.csv` SET v = 9; ",
 	}
 	run := func(tag, prog string, env []string) string {
 		dx := filepath.Join(scratch, "c01-fin-"+tag)
@@ -304,6 +314,10 @@ func finalisationCorpus(o *hc.Out, bin, scratch string) {
 		for p, xs := range [][]int{{1, 2, 3}, {1, 1}, {}} {
 			_ = os.WriteFile(filepath.Join(dx, fmt.Sprintf("f%d.csv", p)), fileBytes(xs), 0o644)
 		}
+		_ = os.WriteFile(filepath.Join(dx, "g1.jsonl"), []byte("{\"v\":1}\n{\"v\":2}\n{\"v\":3}\n"), 0o644)
+		_ = os.WriteFile(filepath.Join(dx, "g2.ltsv"), []byte("k:a\tv:1\nk:b\tv:2\n"), 0o644)
+		_ = os.WriteFile(filepath.Join(dx, "g3.json"), []byte("[{\"v\":1},{\"v\":2}]\n"), 0o644)
+		_ = os.WriteFile(filepath.Join(dx, "g4.tsv"), []byte("v\n1\n2\n"), 0o644)
 		c := exec.Command(bin, "--repository", dx, "--quiet", prog)
 		c.Dir = dx
 		c.Env = append(append(os.Environ(), "HOME="+dx), env...)
@@ -336,6 +350,70 @@ func finalisationCorpus(o *hc.Out, bin, scratch string) {
 			}
 		}
 		o.NonTrivial(fmt.Sprintf("finalisation:%d", pi))
+	}
+}
+
+// headerlessCorpus: tables that have no header line on disk and no record left at the end.  Whatever csvq decides
+// to do with them (it refuses the whole commit: an empty text cannot be told from "no table"), the outcome is all
+// or nothing: exit status 0 means EVERY table holds what the procedure last saw, any other status means no file
+// changed and no created file exists.
+func headerlessCorpus(o *hc.Out, bin, scratch string) {
+	type cs struct {
+		name  string
+		flags []string
+		prog  string
+		// what the files must be after a run with exit status 0
+		want map[string]string
+	}
+	cases := []cs{
+		{"ltsv_all_deleted", nil, "UPDATE `f0.csv` SET v = v + 1; DELETE FROM `g2.ltsv`; SELECT COUNT(*) FROM `g2.ltsv`;", map[string]string{"f0.csv": "v\n2\n3\n", "g2.ltsv": ""}},
+		{"no_header_csv_all_deleted", []string{"--no-header", "--without-header"}, "UPDATE `f0.csv` SET c1 = 'x' WHERE c1 = '1'; DELETE FROM `h.csv`;", map[string]string{"h.csv": ""}},
+		{"created_without_header", []string{"--without-header"}, "CREATE TABLE `n.csv` (a, b); UPDATE `f0.csv` SET v = v + 1;", map[string]string{"n.csv": "", "f0.csv": "2\n3\n"}},
+		{"header_set_to_false", nil, "ALTER TABLE `f0.csv` SET HEADER TO FALSE; DELETE FROM `f0.csv`; INSERT INTO `g2.ltsv` (k, v) VALUES ('c', 9);", map[string]string{"f0.csv": "", "g2.ltsv": "k:a\tv:1\nk:b\tv:2\nk:c\tv:9\n"}},
+	}
+	for _, c := range cases {
+		dx := filepath.Join(scratch, "c01-hl-"+c.name)
+		_ = os.RemoveAll(dx)
+		_ = os.MkdirAll(dx, 0o755)
+		before := map[string]string{"f0.csv": "v\n1\n2\n", "g2.ltsv": "k:a\tv:1\nk:b\tv:2\n", "h.csv": "5\n6\n"}
+		for n, b := range before {
+			_ = os.WriteFile(filepath.Join(dx, n), []byte(b), 0o644)
+		}
+		cmd := exec.Command(bin, append(append([]string{"--repository", dx, "--quiet"}, c.flags...), c.prog)...)
+		cmd.Dir = dx
+		cmd.Env = append(os.Environ(), "HOME="+dx)
+		out, err := cmd.CombinedOutput()
+		after := map[string]string{}
+		ents, _ := os.ReadDir(dx)
+		for _, e := range ents {
+			b, _ := os.ReadFile(filepath.Join(dx, e.Name()))
+			after[e.Name()] = string(b)
+		}
+		rep := map[string]interface{}{"case": c.name, "flags": c.flags, "program": c.prog, "output": string(out), "exit_ok": err == nil, "files_after": after}
+		if err == nil {
+			for n, w := range c.want {
+				if got, ok := after[n]; !ok || got != w {
+					rep["file"], rep["want"] = n, w
+					o.Law("normal_end_did_not_publish", rep)
+				}
+			}
+		} else {
+			for n, b := range before {
+				if after[n] != b {
+					rep["file"] = n
+					o.Law("failed_run_changed_file", rep)
+				}
+			}
+			for n := range after {
+				if _, ok := before[n]; !ok {
+					rep["file"] = n
+					o.Law("failed_run_left_created_file", rep)
+				}
+			}
+		}
+		o.Eval()
+		o.NonTrivial(fmt.Sprintf("headerless:%s:%v", c.name, err == nil))
+		_ = os.RemoveAll(dx)
 	}
 }
 
